@@ -131,13 +131,19 @@ def stack_presized(cat, rng, stack):
     for v in vals:
         b.push(target, v, b.form_for(v))
 
+    from fcat import layout, index_of
+    ixcap = n * layout(index_of(cat["term"]))[0]
+
     def last_cap_same(got, other):
         a, c = caps_of(got), caps_of(other)
         if a is None or c is None:
             return None
         if whole:
             return None if a == c else "capacities changed: %s -> %s" % (c, a)
-        return None if a[-1] == c[-1] else "index vector reallocated: %d -> %d" % (c[-1], a[-1])
+        # the index vector was sized for exactly n entries; that capacity must still be reported afterwards
+        if ixcap not in c:
+            return None
+        return None if ixcap in a else "index vector reallocated: capacity %d no longer reported (%s -> %s)" % (ixcap, c, a)
     b.raw("heap %s" % target, ("rel", h0, last_cap_same, "the FlatStack's index vector does not reallocate"), cmp="none",
           sig="stack-index-realloc@" + b.entry, shape="heap")
     b.s.nontrivial = True
